@@ -31,7 +31,7 @@ mv /tmp/seed_demo.$$.go "$WT/$DIR/$NAME"
 mut_rc=$(run_demo_only /tmp/seed_mut.$$)
 echo "$P m$K: clean_demo_rc=$clean_rc build_rc=$build_rc suite_rc=$suite_rc mutated_demo_rc=$mut_rc dir=$DIR"
 if [ "$clean_rc" = 0 ] && [ "$build_rc" = 0 ] && [ "$suite_rc" = 0 ] && [ "$mut_rc" != 0 ]; then
-  OUT="$VERIF/seeded/$P-m$K"; mkdir -p "$OUT"
+  OUT="$VERIF/seeded/$P-${SEEDPREFIX:-m}$K"; mkdir -p "$OUT"
   cp /tmp/seed_patch.$$ "$OUT/patch.diff"; cp "$DEMO" "$OUT/demo_test.go"; cp "$SRC/m$K.md" "$OUT/notes.md" 2>/dev/null
   tail -15 /tmp/seed_mut.$$ > "$OUT/demo_failure.txt"
   python3 - "$P" "$K" "$DIR" "$OUT" "$(git -C /repo rev-parse --short HEAD)" <<'PY'
